@@ -24,6 +24,10 @@ func itoa(n int) string { return strconv.Itoa(n) }
 func ContextOps() {
 	root := plush.NewContext()
 	root.Set("a", 1)
+	// the shared context may sit several levels below the root
+	for d := []int{0, 2, 4}[vrt.Choice(3)]; d > 0; d-- {
+		root = root.New().(*plush.Context)
+	}
 	c := root.New().(*plush.Context)
 	c.Set("b", 2)
 	x := vrt.Int()
@@ -111,6 +115,14 @@ func ExecSharedTemplate() {
 	if shared {
 		parent := plush.NewContext()
 		fill(parent, x, y)
+		// the shared parent may itself sit some levels below the root
+		depths := []int{0, 2}
+		if vrt.Tier() > 0 {
+			depths = []int{0, 1, 2, 4, 5, 6}
+		}
+		for d := depths[vrt.Choice(len(depths))]; d > 0; d-- {
+			parent = parent.New().(*plush.Context)
+		}
 		mk = func(a, b int) *plush.Context {
 			c := parent.New().(*plush.Context)
 			c.Set("x", a)
